@@ -45,6 +45,7 @@ class Clause:
     tags: List[str]
     vc_file: str
     vc_line: int
+    group: str = ''           # `[label grp:NAME ...]`: a unit may leave a group of clauses to another unit (`//@exclude-groups NAME`)
     assumed: bool = False     # `[label assumed Cxx]`: part of the contract callers may use, never proved at the definition (listed in evidence)
 
 
@@ -91,6 +92,7 @@ class Insert:
     text: str
     vc_file: str
     vc_line: int
+    group: str = ''    # `@insert ... grp NAME`
 
 
 @dataclass
@@ -152,15 +154,17 @@ def _parse_clause_block(lines: List[Tuple[int, str]], vc_file: str, default_tags
             body = s[2:].strip()
             label = None
             is_assumed = False
+            grp = ''
             tags = list(default_tags)
             m = re.match(r'\[([^\]]*)\]\s*(.*)$', body)
             if m:
                 toks = m.group(1).split()
                 # only treat as a label bracket if all tokens look like labels/tags
-                if toks and all(re.match(r'^[A-Za-z0-9_.\-]+$', t) for t in toks):
+                if toks and all(re.match(r'^[A-Za-z0-9_.:\-]+$', t) for t in toks):
                     body = m.group(2)
                     is_assumed = 'assumed' in toks
-                    toks = [t for t in toks if t != 'assumed']
+                    grp = next((t[4:] for t in toks if t.startswith('grp:')), '')
+                    toks = [t for t in toks if t != 'assumed' and not t.startswith('grp:')]
                     ptags = [t for t in toks if re.match(r'^C\d\d$', t)]
                     names = [t for t in toks if not re.match(r'^C\d\d$', t)]
                     if ptags:
@@ -170,7 +174,7 @@ def _parse_clause_block(lines: List[Tuple[int, str]], vc_file: str, default_tags
             k = counters.get(kind, 0)
             counters[kind] = k + 1
             lab = '%s%s.%s' % (prefix, kind, label if label else str(k))
-            cur = Clause(kind, body, lab, tags, vc_file, ln, assumed=is_assumed)
+            cur = Clause(kind, body, lab, tags, vc_file, ln, assumed=is_assumed, group=grp)
             blk.clauses.append(cur)
         else:
             if cur is None:
@@ -262,6 +266,11 @@ def parse_vc(path: str, text: str) -> List[FnContract]:
                                           ' '.join(proof_lines))
         elif name == 'insert':
             a = _split_quoted(args)
+            grp = ''
+            if len(a) >= 2 and a[-2] == 'grp':
+                grp = a[-1]
+                a = a[:-2]
+            n_before = len(cur.inserts)
             txt = '\n'.join(l for _, l in body) + '\n'
             if a[0] in ('body-start', 'body-end'):
                 cur.inserts.append(Insert(a[0], None, txt, path, ln0))
@@ -274,6 +283,8 @@ def parse_vc(path: str, text: str) -> List[FnContract]:
                 cur.inserts.append(Insert(a[0], (_unq(a[1]), nth), txt, path, ln0))
             else:
                 raise ContractError('%s:%d: bad @insert %r' % (path, ln0, args))
+            for ins_ in cur.inserts[n_before:]:
+                ins_.group = grp
         elif name == 'stubsig':
             cur.stubsig = '\n'.join(l for _, l in body).strip()
         elif name == 'candidates':
